@@ -18,6 +18,7 @@ driver ops for C12 (block signature check) and C20 (ADNL channel structure).
   adnl_dec <shared> <local_id> <peer_id> <sum>   -> ok <aes key> <iv> | err       (AdnlChannel.decrypt, same trick)
   adnl_cipher <key> <data>                       -> ok <aes key> <iv> | err       (create_aes_ctr_sipher_from_key_n_data)
   sign_slice <crypto_sign output>                -> ok <sign_message result>       (the [:64] slicing)
+  rand_num <min> <max> <fuel> <urandom answers r,r,...>  -> ok <value> <urandom calls> | err   (get_secure_random_number)
   mn_valid <n words> <pbkdf2 output>             -> ok 0|1   mnemonic_is_valid with PBKDF2 answering the given bytes
   mn_new <words_count> <fuel> <urandom answers r,r,...> <valid candidates i.i.i;i.i.i…>
       -> ok <indices i.i.i> <urandom calls> | err
@@ -122,6 +123,14 @@ def handle? (op : String) (args : List String) : Option String :=
       match hexArg signed with
       | some sg => "ok " ++ dashHex (signMessage (prims [] id) sg [])
       | none => "bad-op")
+  | "rand_num", [lo, hi, fuel, rnds] => some (
+      match lo.toNat?, hi.toNat?, fuel.toNat?, (Sig.splitList rnds).mapM hexArg with
+      | some lo, some hi, some fuel, some rs =>
+        let arr := rs.toArray
+        match secureRandomNumber (fun k => arr.getD k []) lo hi fuel 0 with
+        | some (v, k) => "ok " ++ toString v ++ " " ++ toString k
+        | none => "err"
+      | _, _, _, _ => "bad-op")
   | "mn_valid", [n, out] => some (
       match n.toNat?, hexArg out with
       | some n, some out =>
